@@ -35,6 +35,7 @@ func main() {
 		{"MortonGen.v", genMorton},
 		{"ConstsGen.v", genConsts},
 		{"PointIndexGen.v", genPointIndex},
+		{"LineGen.v", genLine},
 		{"TmsData.v", genTmsData},
 		{"CliGen.v", genCli},
 	}
